@@ -18,7 +18,7 @@
 #include <stdlib.h>
 
 enum { F_LEVEL_NONE, F_LEVEL_BYTES, F_LEVEL_STACKS, F_REALLOC_MOVED, F_REALLOC_SAME_PTR, F_REALLOC_TO_ZERO, F_REALLOC_FROM_NULL, F_CALLOC, F_DUMP_WITH_LIVE,
-       F_CROSS_THREAD_RELEASE, F_READING_DURING_ACTIVITY, F_WRAPPED_HAS_REALLOC, F_WRAPPED_NO_REALLOC, F_ADDRESS_REUSE, F_FOREIGN_RELEASE, F_FOREIGN_REALLOC };
+       F_CROSS_THREAD_RELEASE, F_READING_DURING_ACTIVITY, F_WRAPPED_HAS_REALLOC, F_WRAPPED_NO_REALLOC, F_ADDRESS_REUSE, F_FOREIGN_RELEASE, F_FOREIGN_REALLOC, F_MANY_STACKS };
 
 static inline uint8_t pat(uint64_t id, size_t off) {
     return (uint8_t)(id * 131 + off * 11 + (id >> 9) + 5);
@@ -90,6 +90,100 @@ static const int LEVELS[] = {AWS_MEMTRACE_NONE, AWS_MEMTRACE_BYTES, AWS_MEMTRACE
 static const size_t FRAMES[] = {0, 1, 8, 128, 500};
 
 /* ================================================================== sequential */
+/* ------------------------------------------------------------------ thousands of distinct call stacks (level STACKS)
+ * allocations reached through 2^13 different call chains: two mutually recursive functions, the path is chosen by the
+ * bits of the chain number, so every chain is a different sequence of return addresses */
+struct chain_req {
+    struct aws_allocator *tr;
+    size_t size;
+    void *out;
+};
+static void chain_b(unsigned bits, int depth, struct chain_req *q) __attribute__((noinline));
+static void chain_a(unsigned bits, int depth, struct chain_req *q) __attribute__((noinline));
+static void chain_a(unsigned bits, int depth, struct chain_req *q) {
+    if (depth == 0) {
+        q->out = aws_mem_acquire(q->tr, q->size);
+    } else if (bits & 1) {
+        chain_b(bits >> 1, depth - 1, q);
+        __asm__ volatile("" ::: "memory"); /* keep this frame: no tail call */
+    } else {
+        chain_a(bits >> 1, depth - 1, q);
+        __asm__ volatile("" ::: "memory");
+    }
+    __asm__ volatile("" ::: "memory");
+}
+static void chain_b(unsigned bits, int depth, struct chain_req *q) {
+    if (depth == 0) {
+        q->out = aws_mem_calloc(q->tr, 1, q->size);
+    } else if (bits & 1) {
+        chain_a(bits >> 1, depth - 1, q);
+        __asm__ volatile("" ::: "memory");
+    } else {
+        chain_b(bits >> 1, depth - 1, q);
+        __asm__ volatile("" ::: "memory");
+    }
+    __asm__ volatile("" ::: "memory");
+}
+
+static void many_stacks_case(void) {
+    struct mon_rng *r = &mon_case_rng;
+    struct aws_allocator *wrapped = mon_guard_allocator();
+    struct mon_alloc_stats st0, st1;
+    mon_guard_stats(&st0);
+    struct aws_allocator *tr = aws_mem_tracer_new(wrapped, NULL, AWS_MEMTRACE_STACKS, 24);
+    mon_fp(0x57AC);
+    unsigned nchains = 4000 + (unsigned)mon_below(r, 4192); /* up to 2^13 */
+    unsigned start = (unsigned)mon_below(r, 8192);
+    void **blocks = malloc(sizeof(void *) * nchains);
+    size_t *sizes = malloc(sizeof(size_t) * nchains);
+    size_t want_bytes = 0;
+    uint64_t v0 = mon_violations();
+    for (unsigned i = 0; i < nchains && mon_violations() == v0; ++i) {
+        struct chain_req q = {.tr = tr, .size = 1 + (size_t)mon_below(r, 64), .out = NULL};
+        chain_a((start + i) & 8191, 13, &q);
+        blocks[i] = q.out;
+        sizes[i] = q.size;
+        want_bytes += q.size;
+        if (!q.out) {
+            mon_violation("C17:null-block", "acquire through call chain %u returned NULL", i);
+            break;
+        }
+        if ((i & 255) == 255 || i + 1 == nchains) {
+            size_t bytes = aws_mem_tracer_bytes(tr), count = aws_mem_tracer_count(tr);
+            if (bytes != want_bytes) {
+                mon_violation("C17:bytes", "after %u allocations from %u distinct call stacks (level 2): aws_mem_tracer_bytes = %zu, sum of live requested sizes = %zu", i + 1, i + 1,
+                              bytes, want_bytes);
+            }
+            if (count != i + 1) {
+                mon_violation("C17:count", "after %u allocations from %u distinct call stacks (level 2): aws_mem_tracer_count = %zu", i + 1, i + 1, count);
+            }
+        }
+    }
+    if (mon_violations() == v0) {
+        if (mon_chance(r, 1, 2)) {
+            aws_mem_tracer_dump(tr);
+        }
+        for (unsigned i = 0; i < nchains; ++i) {
+            aws_mem_release(tr, blocks[i]);
+        }
+        size_t bytes = aws_mem_tracer_bytes(tr), count = aws_mem_tracer_count(tr);
+        if (bytes != 0 || count != 0) {
+            mon_violation(bytes ? "C17:bytes" : "C17:count", "everything released after %u allocations from distinct call stacks: tracer reports %zu bytes in %zu allocations", nchains,
+                          bytes, count);
+        }
+        aws_mem_tracer_destroy(tr);
+        mon_guard_stats(&st1);
+        if (st1.live_blocks != st0.live_blocks) {
+            mon_violation("C17:wrapped-imbalance", "after the many-stacks case the wrapped allocator has %lld blocks outstanding", (long long)(st1.live_blocks - st0.live_blocks));
+        }
+    }
+    free(blocks);
+    free(sizes);
+    mon_flag(F_LEVEL_STACKS);
+    mon_flag(F_MANY_STACKS);
+    mon_count("allocations_from_distinct_call_stacks", nchains);
+}
+
 static void seq_case(void) {
     struct mon_rng *r = &mon_case_rng;
     int level = LEVELS[mon_below(r, 3)];
@@ -692,7 +786,8 @@ int main(int argc, char **argv) {
     static const char *names[] = {"level_none", "level_bytes", "level_stacks", "realloc_moved", "realloc_same_pointer", "realloc_to_zero", "realloc_from_null", "calloc",
                                   "dump_with_live_allocations", "block_released_by_another_thread", "reading_with_activity_in_flight", "wrapped_allocator_has_realloc",
                                   "wrapped_allocator_without_realloc", "wrapped_allocator_reuses_addresses_immediately",
-                                  "untracked_block_released_through_tracer", "untracked_block_resized_through_tracer"};
+                                  "untracked_block_released_through_tracer", "untracked_block_resized_through_tracer",
+                                  "more_than_4000_distinct_call_stacks"};
     for (int i = 0; i < (int)(sizeof(names) / sizeof(names[0])); ++i) {
         mon_flag_name(i, names[i]);
     }
@@ -708,7 +803,11 @@ int main(int argc, char **argv) {
             thr_case();
             mon_case_end(mon_flag_count() >= 3);
         } else {
-            seq_case();
+            if (c % 64 == 63) {
+                many_stacks_case();
+            } else {
+                seq_case();
+            }
             mon_case_end(mon_flag_count() >= 4);
         }
     }
